@@ -49,12 +49,12 @@ func init() {
 		Shards:                8,
 		RaceShards:            8,
 		RacePkgs:              []string{"zcrypto/ct/scanner", "zcrypto/ct/client"},
-		ChildTimeoutQuick:     900,
+		ChildTimeoutQuick:     2400,
 		Assumptions: []string{
 			"the fake log answers every range request with the complete range, a non-empty strict prefix or a transient failure, and after a bounded number of failures per range start with the complete range",
 			"entries whose certificate cannot be parsed are not handed to the matcher (there is no certificate to hand over); per the scanner's comments they are skipped, or with IgnoreParsingErrors delivered to the found callback when they are valid ASN.1",
 			"an entry is identified by the serial number of the certificate handed to the matcher / by the raw bytes handed to the callback",
-			"termination: a Scan that has not returned after 150 s (normal duration < 5 s) with goroutines parked in ct/scanner frames is reported as a violation with the goroutine dump",
+			"termination: a Scan that has not returned while the fake log has seen no new request for 240 s (a whole scan normally takes < 5 s), with goroutines parked in ct/scanner frames, is reported as a violation with the goroutine dump",
 			"race detection is that of the Go race detector on the interleavings that occurred (GOMAXPROCS 1/2/4/16, perturbed callbacks and handlers)",
 			"goroutine ids are read from runtime.Stack; ordering of events across goroutines uses the monotonic clock and is used for evidence (interleaving counts) only",
 		},
@@ -372,17 +372,34 @@ func runScan(cfg scanConfig, tree *fakeTree) *scanResult {
 		o.pi = core.Guard(func() { o.ret, o.err = s.Scan(found(evFoundCert), found(evFoundPrecert), updater) })
 		done <- o
 	}()
-	limit := 150 * time.Second
-	select {
-	case o := <-done:
-		res.ret, res.err, res.panicked = o.ret, o.err, o.pi
-	case <-time.After(limit):
-		buf := make([]byte, 4<<20)
-		n := runtime.Stack(buf, true)
-		res.hung = true
-		res.dump = string(buf[:n])
-		close(stopDrain)
-		return res
+	// termination watch: progress-based, so that a slow machine is not mistaken for a hang. Progress = a new
+	// request reaching the fake log; once the last range has been fetched at most 3000 buffered entries remain.
+	const idleLimit, hardLimit = 240 * time.Second, 30 * time.Minute
+	tick := time.NewTicker(2 * time.Second)
+	defer tick.Stop()
+	lastN, lastChange := -1, time.Now()
+wait:
+	for {
+		select {
+		case o := <-done:
+			res.ret, res.err, res.panicked = o.ret, o.err, o.pi
+			break wait
+		case <-tick.C:
+			fl.mu.Lock()
+			n := len(fl.reqs) + fl.sthReqs + fl.other
+			fl.mu.Unlock()
+			if n != lastN {
+				lastN, lastChange = n, time.Now()
+			}
+			if time.Since(lastChange) > idleLimit || time.Since(t0) > hardLimit {
+				buf := make([]byte, 4<<20)
+				n := runtime.Stack(buf, true)
+				res.hung = true
+				res.dump = string(buf[:n])
+				close(stopDrain)
+				return res
+			}
+		}
 	}
 	res.elapsed = time.Since(t0)
 	close(stopDrain)
@@ -719,9 +736,9 @@ func runC17(c *core.Ctx) {
 			c.Count("scans", 1)
 			if res.hung {
 				if strings.Contains(res.dump, "zcrypto/ct/scanner.(*Scanner)") {
-					c.Violation("termination:scan-did-not-return", "Scan still running after 150 s; goroutines parked in ct/scanner frames:\n"+res.dump, cid, cfg)
+					c.Violation("termination:scan-did-not-return", "Scan has not returned and the log has seen no request for 240 s; goroutines parked in ct/scanner frames:\n"+res.dump, cid, cfg)
 				} else {
-					c.Note("scan %s exceeded 150 s without scanner frames in the dump (inconclusive)", cid)
+					c.Note("scan %s: watchdog fired without scanner frames in the dump (inconclusive)", cid)
 					c.Count("watchdog_without_scanner_frames", 1)
 				}
 				return // the scanner goroutines cannot be cancelled; end this shard
